@@ -26,15 +26,12 @@ if os.environ.get('VERIF_DOM_BUDGET'): BUDGET = dict(BUDGET, quick=int(os.enviro
 # Known genuine defects of the unchanged tree: the input class is removed from the generator *by construction*.
 # Remove an id from this set (or set VERIF_C13_NOEXCL=id,id or =all) once the defect is fixed in /repo.
 ACTIVE_EXCLUSIONS = {
-    'C13-self-insert',
     'C13-normalize-empty-text',
-    'C13-substringData-count-overflow',
     'C13-setAttributeNode-self',
     'C13-setAttributeNodeNS-self-inuse',
     'C13-setAttributeNS-keeps-prefix',
     'C13-setAttributeNS-prefixed-lookup',
     'C13-document-fragment-partial-insert',
-    'C13-clone-firstchild-flag',
     'C13-clone-attr-specified',
     'C13-clone-loses-defaults',
     'C13-document-replaceChild-self',
@@ -99,8 +96,15 @@ def replay(case, ctx):
     return ok, detail
 
 # ---- known findings ------------------------------------------------------------------------------------
+ALL_EXCLUSION_IDS = frozenset(ACTIVE_EXCLUSIONS) | frozenset(x[:-5] for d in ('C13', 'C14') if os.path.isdir(os.path.join(xv.VERIF, 'regress-known', d))
+                                                         for x in os.listdir(os.path.join(xv.VERIF, 'regress-known', d)) if x.endswith('.json'))
+
 def classify(case, detail):
-    return None
+    """A generated case always carries the full exclusion list, so it can never fall into a known class.  A stored witness is the
+    same kind of case with exactly one exclusion id switched off: that id is the finding it demonstrates."""
+    missing = [i for i in ALL_EXCLUSION_IDS if i not in set(case.get('excl', []))]
+    mine = [i for i in missing if i.startswith(ID + '-')] or missing
+    return mine[0] if len(mine) == 1 else None
 
 def known_witnesses():
     out = []
